@@ -21,6 +21,55 @@ def guardOk (attr : Option (List Role)) (has : Role → Bool) : Bool :=
   | none => true
   | some rs => rs.any has
 
+/-! ### the guard as the code evaluates it: an ORDERED fold over `has_role`, which can fail
+
+`RoleStore::has_role(authority, role)`: `PermissionDenied` when the authority is not a member at all,
+`NotFound` when the role was never enabled, `PreconditionsAreNotMet` when it is disabled, otherwise
+the membership bit. `ensure_has_any_role` asks the roles IN THE ORDER LISTED and propagates the first
+error with `?` — so the order of the role list in the source matters. -/
+
+inductive RoleState where
+  | never
+  | enabled
+  | disabled
+  deriving DecidableEq, Repr
+
+inductive GErr where
+  | permissionDenied
+  | notFound
+  | preconditionsNotMet
+  deriving DecidableEq, Repr
+
+/-- the store's role table as far as one caller is concerned -/
+structure RoleTable where
+  state : Role → RoleState
+  /-- the caller has an entry in the member table (holds or held at least one role) -/
+  member : Bool
+  /-- the caller's bit for the role (a bit survives the role being disabled) -/
+  bit : Role → Bool
+
+def hasRoleE (t : RoleTable) (r : Role) : Except GErr Bool :=
+  if !t.member then .error .permissionDenied else
+  match t.state r with
+  | .never => .error .notFound
+  | .disabled => .error .preconditionsNotMet
+  | .enabled => .ok (t.bit r)
+
+/-- `ensure_has_any_role(roles)` — also `only(role)` for a one-element list -/
+def ensureAnyE (t : RoleTable) : List Role → Except GErr Unit
+  | [] => .error .permissionDenied
+  | r :: rs =>
+    match hasRoleE t r with
+    | .error e => .error e
+    | .ok true => .ok ()
+    | .ok false => ensureAnyE t rs
+
+/-- the attribute guard with the role list in SOURCE ORDER -/
+def guardE (attr : Option (List Role)) (t : RoleTable) : Except GErr Unit :=
+  match attr with
+  | none => .ok ()
+  | some rs => ensureAnyE t rs
+
 /-- one instruction invocation on state `σ`: returns the state the handler left and the result.
 The guard is evaluated first; on failure the handler is never entered. -/
 def run {σ : Type} (ix : IxId) (has : Role → Bool) (handler : σ → σ × Except Err Unit) (s : σ) : σ × Except Err Unit :=
